@@ -490,6 +490,29 @@ def monitor_dataflow(w: World, wf_spec: dict[str, dict[str, Any]]) -> tuple[str,
     return None
 
 
+def monitor_join_bookkeeping(w: World, wf_spec: dict[str, dict[str, Any]]) -> tuple[str, Any] | None:
+    """C07 at engine level: the read-modify-write of a join stage's ``_completed_branches`` by its
+    upstreams' completions never loses an entry - at the end every upstream that finished
+    SUCCEEDED is listed (for joins that keep the list; loop-free workloads only)."""
+    snap = w.snapshot()
+    for ref, sp in wf_spec.items():
+        if sp["join"] not in ("DISCRIMINATOR", "N_OF_M", "MULTI_MERGE", "OR"):
+            continue
+        st = snap["stages"].get(ref)
+        if st is None:
+            continue
+        listed = st["context"].get("_completed_branches")
+        if listed is None:
+            continue
+        done = sorted(d for d in sp["deps"] if snap["stages"].get(d, {}).get("status") == "SUCCEEDED")
+        missing = [d for d in done if d not in listed]
+        if missing:
+            return ("join_bookkeeping_lost_an_upstream/%s" % ref, {"join": ref, "listed": listed, "succeeded_upstreams": done, "missing": missing})
+        if len(listed) != len(set(listed)):
+            return ("join_bookkeeping_duplicate/%s" % ref, {"join": ref, "listed": listed})
+    return None
+
+
 def spec_of(wf: Any) -> dict[str, dict[str, Any]]:
     return {
         s.ref_id: {"deps": sorted(s.requisite_stage_ref_ids), "join": s.join_type.name, "threshold": s.join_threshold}
@@ -504,6 +527,7 @@ MONITORS = {
     "C03": lambda w, spec: monitor_dependencies(w, spec),
     "C16": lambda w, spec: monitor_dataflow(w, spec),
     "C02x": lambda w, spec: monitor_single_continuation(w),
+    "C07j": lambda w, spec: monitor_join_bookkeeping(w, spec),
 }
 
 
